@@ -19,6 +19,17 @@ NEEDS={
  "C14-1":("C14","a call with at least three keyword arguments in a rotated order (b, c, a)"),
  "C15-1":("C15","two keyword parameters where one name is a strict prefix of the other continued by a digit (v:, v2:), both passed"),
  "C16-1":("C16","a class that both includes and extends the same module, and a call needing whichever registration came second"),
+ "C17-1":("C17","two nested blocks where the outer block's parameter shadows an already typed outer variable and the inner block has a parameter of a different name (restore buffer shared by the singleton Do evaluator)"),
+ "C18-1":("C18","a .ti-loader.json preload plus a top-level variable re-bound with another type in the target, or a forward-reference chain of depth >= 3 across the cut (the check round of preloaded files is skipped)"),
+ "C19-1":("C19","a configured class split across files where the fragment carrying `extends` loads before another fragment of the same class, and a call of an inherited method"),
+ "C20-1":("C20","an extra configured class in a frame nested under Builtin (Builtin::Zed) whose short name equals a user class used as a bare superclass"),
+ "C21-1":("C21","a compact union with three or more alternatives (\"String|Int|Float\") against the long notation"),
+ "C22-1":("C22","an endless def whose parameter list spans several rows (hint / --define row moves to the `) =` row)"),
+ "C23-1":("C23","a receiver whose class (or ancestor) is defined inside a namespace with a superclass/include, or an ancestor module that itself includes a module (ancestor walk skips parents[0])"),
+ "C24-1":("C24","--llm-nav --target=<name> where the method name is defined in two classes (first match wins)"),
+ "C25-1":("C25","an RBS overload with a trailing positional but no rest parameter ((?Integer, Integer)): the trailing parameter is dropped"),
+ "C26-1":("C26","an mrbc binding whose typed GET_*_ARG indexes are sparse (an argument read through untyped GET_ARG(n) in between)"),
+ "C27-1":("C27","a class nested in a class, wrapped in two modules, whose unqualified superclass/mixin lives in the middle namespace (resolution jumps from M1::M2::Outer to M1)"),
 }
 for d in sorted(glob.glob('/verif/seeded/*/')):
     name=os.path.basename(d.rstrip('/'))
